@@ -208,6 +208,48 @@ def wl_twins_mixture(rng):
     return am
 
 
+def hypercoordinate(rng):
+    """centres with 13..20 neighbours (metallocene / cluster-like): two or three centres of one element whose neighbour
+    lists differ only in their low-ranking tail (fewer or lighter ligands), optionally joined through a bridge."""
+    centre = rng.choice([92, 26, 57, 40, 82])
+    heavy = rng.choice([17, 9, 6, 35])
+    light = [z for z in (1, 3, 5, 6, 8, 9) if z < heavy]
+    k_heavy = rng.randint(12, 15)
+    zs, edges = [], []
+    centres = []
+    tails = rng.sample([[], [light[0]], [light[0]] * rng.randint(2, 4), [light[-1]] * rng.randint(1, 3), [light[0], light[-1]]], rng.choice([2, 3]))
+    for tail in tails:
+        c = len(zs); zs.append(centre); centres.append(c)
+        for z in [heavy] * k_heavy + tail:
+            zs.append(z); edges.append((c, len(zs) - 1))
+    if rng.random() < .5:       # one molecule: bridge the centres through an oxygen each
+        for a, b in zip(centres, centres[1:]):
+            zs.append(8); edges += [(a, len(zs) - 1), (b, len(zs) - 1)]
+    mass = {centres[0]: 238} if centre == 92 and rng.random() < .3 else {}
+    return AM(zs, edges, mass, {}, "hypercoordinate")
+
+
+def octahedron(): return 6, [(i, j) for i in range(6) for j in range(i + 1, 6) if j != i + 3]
+
+
+def centred_cage(rng):
+    """a symmetric cage or ring with one further atom bonded to every cage atom (interstitial / capping atom, wheel);
+    no other ligands, so that one atom is bonded to all others while the compound is neither a star nor complete"""
+    name, (n, e) = rng.choice([("octahedron", octahedron()), ("cube", cube()), ("prism3", prism(3)), ("prism4", prism(4)), ("prism5", prism(5)),
+                               ("ring5", cycle(5)), ("ring6", cycle(6)), ("ring7", cycle(7)), ("ring8", cycle(8)), ("petersen", petersen()),
+                               ("K33", kbip(3, 3)), ("path5", path(5)), ("ladder3", ladder(3))])
+    metal = rng.choice([44, 26, 27, 5, 6, 79])
+    zs = [metal] * n
+    if rng.random() < .3:
+        for i in range(0, n, 2):
+            zs[i] = rng.choice([28, 7])
+    edges = list(e)
+    hub = len(zs); zs.append(rng.choice([6, 7, 5, 1, 8]))
+    edges += [(hub, i) for i in range(n)]
+    mass = {hub: 13} if zs[hub] == 6 and rng.random() < .2 else {}
+    return AM(zs, edges, mass, {}, "centred-cage:" + name)
+
+
 def tree_like(rng, n):
     zs = [rng.choice([6, 6, 6, 7, 8]) for _ in range(n)]
     edges = [(rng.randrange(i), i) for i in range(1, n)]
@@ -326,3 +368,7 @@ def standard_stream(rng, tier):
         yield cage_salt(rng)
     for _ in range(6 if quick else 40):
         yield wl_twins_mixture(rng)
+    for _ in range(6 if quick else 40):
+        yield hypercoordinate(rng)
+    for _ in range(10 if quick else 60):
+        yield centred_cage(rng)
